@@ -111,7 +111,7 @@ def run(chk):
         rp = {'op': r.op, 'ids': [r.id], 'family': r.family, 'record': r.line[:3000]}
         impl = parse_tess_impl(r.res)
         if 'panic' in impl:
-            chk.extra_cov['skipped_panics'] = chk.extra_cov.get('skipped_panics', 0) + 1
+            chk.panic_record(r, impl['panic'], rp)
             continue
         inp = parse_input(r.inp)
         tol = Tol(inp)
